@@ -71,6 +71,7 @@ type Exec struct {
 	inInst    int
 	atWitness int
 	idxElemSort map[int]map[string]bool
+	canonStrs []canonStr // strings used inside map keys, with their canonical representatives
 }
 
 type InputSym struct {
